@@ -195,6 +195,10 @@ func muxWouldRedirect(target string) bool {
 }
 
 const mintedUUID = "<uuid>"
+
+// a request that carries this header (it is forwarded like any other) sends its body with
+// Transfer-Encoding: chunked instead of a Content-Length
+const chunkedHeader = "X-Hx-Chunked"
 const remoteIP = "127.0.0.1"
 
 func (c RouteCase) sx() sx.V {
@@ -442,11 +446,31 @@ func rawRequest(addr string, r Req) (ClientObs, error) {
 	for _, kv := range r.Hdrs {
 		fmt.Fprintf(&b, "%s: %s\r\n", kv.K, kv.V)
 	}
-	if len(r.Body) > 0 || r.Method == "POST" || r.Method == "PUT" {
-		fmt.Fprintf(&b, "Content-Length: %d\r\n", len(r.Body))
+	chunked := false
+	for _, kv := range r.Hdrs {
+		if kv.K == chunkedHeader && len(r.Body) > 0 {
+			chunked = true
+		}
 	}
-	b.WriteString("\r\n")
-	b.WriteString(r.Body)
+	if chunked {
+		// a body of unknown length: Transfer-Encoding: chunked, in pieces of at most 1000 bytes
+		b.WriteString("Transfer-Encoding: chunked\r\n\r\n")
+		for rest := r.Body; len(rest) > 0; {
+			n := len(rest)
+			if n > 1000 {
+				n = 1000
+			}
+			fmt.Fprintf(&b, "%x\r\n%s\r\n", n, rest[:n])
+			rest = rest[n:]
+		}
+		b.WriteString("0\r\n\r\n")
+	} else {
+		if len(r.Body) > 0 || r.Method == "POST" || r.Method == "PUT" {
+			fmt.Fprintf(&b, "Content-Length: %d\r\n", len(r.Body))
+		}
+		b.WriteString("\r\n")
+		b.WriteString(r.Body)
+	}
 	if _, err := conn.Write(b.Bytes()); err != nil {
 		return ClientObs{}, err
 	}
